@@ -129,16 +129,40 @@ class World:
         self.st.accessors[tag].unwatch_all()
         self.sh.count("unwatch_all_calls")
 
+    def exclusive_bytes(self, tag):
+        """No other modelled item shares a byte with this one."""
+        a = self.refs[tag]
+        for t, b in self.refs.items():
+            if t != tag and b.pos < a.pos + a.width and a.pos < b.pos + b.width:
+                return False
+        return True
+
     # ---- updates
     def update(self, offset, segment, geom):
         sh = self.sh
-        b0 = self.st.status_block
+        b0 = bytes(self.st.status_block)
         b1 = b0[:offset] + segment + b0[offset + len(segment) :]
         self.calls = []
         self.cur_b1 = b1
         w = {"struct": self.cls_name, "tables": self.combo, "offset": offset, "len": len(segment), "geometry": geom}
+        # every third update hands the data over in the caller's own receive buffer (a bytearray that
+        # is refilled for the next update): the structure must keep its own copy
+        given = segment
+        if self.r.random() < 0.34:
+            if not hasattr(self, "rxbuf"):
+                self.rxbuf = bytearray(1024)
+            self.rxbuf[: len(segment)] = segment
+            given = self.rxbuf if len(segment) == 1024 else bytearray(segment)
+            w["given_as"] = "reused bytearray" if len(segment) == 1024 else "bytearray"
+            sh.count("updates_given_as_bytearray")
         try:
-            self.st.replace_status_block_segment(offset, segment)
+            self.st.replace_status_block_segment(offset, given)
+            if given is not segment:
+                for i in range(len(given)):
+                    given[i] ^= 0xFF  # the caller reuses its buffer
+                if bytes(self.st.status_block) != b1:
+                    sh.violation("C03:block-aliases-caller-buffer", "the block changed when the caller reused the buffer it had passed to the update", w)
+                    self.st.set_status_block(b1)
         except Exception as e:
             d = describe_exc(e)
             sh.violation("C03:update-raise", f"replace_status_block_segment raised {d['type']}: {d['msg']}", dict(w, exc=d))
@@ -222,6 +246,20 @@ class World:
         b2 = b1[:off2] + seg2 + b1[off2 + n2 :]
         # the reactor sits on one of the changed items (any position in notification order)
         rt = r.choice(changed)
+        # every other time the reactor writes ITS OWN item back (a client clamping / toggling the
+        # value it was just told about, applied at once as the simulator's delegate does): the item
+        # changes twice, each of its observers must hear both changes
+        same = [t for t in changed if self.refs[t].kind != "Temp" and self.exclusive_bytes(t)]
+        if same and r.random() < 0.5:
+            rt = r.choice(same)
+            ref = self.refs[rt]
+            for _ in range(12):
+                cand = bytes(r.randrange(256) for _ in range(ref.width))
+                bb = b1[: ref.pos] + cand + b1[ref.pos + ref.width :]
+                if ref.decode(bb) != ref.decode(b1):
+                    off2, n2, seg2, b2 = ref.pos, ref.width, cand, bb
+                    sh.count("nested_updates_of_the_reacting_item_itself")
+                    break
         fired = []
 
         def reactor(sender, old, new):
@@ -277,6 +315,11 @@ class World:
                     sh.violation("C03:missed", f"{tag} changed {v0!r}->{v1!r}->{v2!r} in a re-entrant update but its {kind} observer was called {len(got)}x (nested)", wi)
                 elif len(got) > exp:
                     sh.violation("C03:spurious" if exp == 0 else "C03:duplicate", f"{tag}: {len(got)} notifications in a re-entrant update, expected {exp}", wi)
+                elif exp == 2 and ref.kind != "Temp":
+                    if sorted((repr(a), repr(b)) for a, b, _ in got) != sorted([(repr(v0), repr(v1)), (repr(v1), repr(v2))]) and tag == rt:
+                        sh.violation("C03:values", f"{tag} changed {v0!r}->{v1!r}->{v2!r} in a re-entrant update, notified {[(a, b) for a, b, _ in got]!r}", wi)
+                    else:
+                        sh.count("notifications_matched", 2)
                 elif exp == 1 and ref.kind != "Temp":
                     old, new, okv = got[0]
                     e_old, e_new = (v0, v1) if v0 != v1 else (v1, v2)
@@ -513,6 +556,7 @@ def main(tier, seed):
         run.need(need in g, f"update geometry {need} never exercised")
     run.need(run.counters.get("notifications_matched", 0) > 1000, "too few notifications observed")
     run.need(run.counters.get("nested_updates", 0) > 100, "too few re-entrant updates")
+    run.need(run.counters.get("nested_updates_of_the_reacting_item_itself", 0) > 20, "no observer wrote its own item back from inside its notification")
     run.need(run.counters.get("reentrant_observer_ops", 0) > 100 and len(run.sets.get("reentrant_ops", set())) >= 5, "too few observer-set operations made from inside a notification")
     run.need(run.counters.get("silent_foreign_bit_changes_checked", 0) > 50, "too few silent foreign-bit changes observed")
     run.need(run.counters.get("rewatch_of_removed_observer", 0) > 20, "removed observers were hardly ever registered again")
